@@ -428,7 +428,13 @@ func getPair() *proxyPair {
 			_ = l.Close()
 			sw := &switchDA{}
 			srv := proxy.NewServer(logger, "127.0.0.1", strconv.Itoa(port), sw)
-			if err := srv.Start(ctx); err != nil {
+			// Start is given a context that ends as soon as Start has returned (a bounded start-up context):
+			// the server's life time is governed by Stop, and a call served later runs under its caller's
+			// context, not under the one that happened to be passed to Start
+			sctx, scancel := context.WithCancel(ctx)
+			err = srv.Start(sctx)
+			scancel()
+			if err != nil {
 				lastErr = err
 				continue
 			}
